@@ -5,7 +5,8 @@ from vlib.gr1games import MODES
 
 ID = 'C01'
 LEVEL = 'proof'
-THEORIES = ['theories/L4/GR1Spec.vo', 'theories/L4/Tables.vo']
+THEORIES = ['theories/L4/GR1Spec.vo', 'theories/L4/Tables.vo',
+            'theories/L4/Determinacy.vo']
 
 HEADER = '''From Coq Require Import List Bool Arith.
 Import ListNotations.
@@ -23,9 +24,10 @@ def prove(ctx):
         '_attractor_under_assumptions) and omega/symbolic/fixpoint.py '
         '(step, trap) -> gen/Gr1Gen.v, gen/FixpointGen.v')
     ctx.assumptions.append(
-        'game-semantic reading of the fixpoint (winning strategies over '
-        'infinite plays) is not mechanised: C01 is decided at the level '
-        '"returned region = mu-calculus fixpoint over the exact cpre"')
+        'C01_region_is_winning_region / C01_outside_environment_wins '
+        '(strategies over infinite plays) depend on the standard-library '
+        'axiom Classical_Prop.classic; persistence/recurrence predicates are '
+        'read at state valuations (primed = unprimed)')
 
 
 def run_impl(g):
